@@ -9,7 +9,7 @@ git apply $src/${prop}_${tag}.patch.diff || { echo "PATCH DOES NOT APPLY"; exit 
 /venv/bin/python $src/${prop}_${tag}_demo.py $d >/tmp/scr/demo_patched.out 2>&1; rc_patched=$?
 echo "demo: clean=$rc_clean patched=$rc_patched"
 cd /verif
-REPO=$d VERIF_JOBS=${VERIF_JOBS:-14} ./check $prop quick > /tmp/scr/check_${prop}_${tag}.out 2>&1; rc=$?
+REPO=$d VERIF_EVIDENCE_DIR=/tmp/scr/evidence VERIF_JOBS=${VERIF_JOBS:-14} ./check $prop quick > /tmp/scr/check_${prop}_${tag}.out 2>&1; rc=$?
 echo "check exit=$rc"; grep -c "^VIOLATION" /tmp/scr/check_${prop}_${tag}.out; grep "^VIOLATION\|^CHECKER-ERROR\|^UNDECIDED" /tmp/scr/check_${prop}_${tag}.out | cut -c1-260 | head -6
 mkdir -p /verif/seeded/${prop}_${tag}
 cp $src/${prop}_${tag}.patch.diff /verif/seeded/${prop}_${tag}/patch.diff
